@@ -91,7 +91,8 @@ fn gen_doc(ch: &mut Ch) -> Doc {
     let mut links = Vec::new();
     for _ in 0..nl {
         // targets: any text without '>'
-        let target = format!("/{}", gen_text(ch, 6, true).replace('>', "x"));
+        // now and then the empty reference <>
+        let target = if ch.chance(1, 10, "sink.empty-target") { String::new() } else { format!("/{}", gen_text(ch, 6, true).replace('>', "x")) };
         let na = ch.below(if thorough() { 7 } else { 5 }, "sink.nattrs") as usize;
         let mut attrs = Vec::new();
         for _ in 0..na {
